@@ -35,12 +35,13 @@ theorem Spec.resolve_eq (c : Cfg) (T : List Name) (rt : RT) (chain : List Frame)
 def Avail (c : Cfg) : List Frame → Name → Prop
   | [], x => x ∈ c.moduleNames
   | p :: rest, x =>
-    if p.ccall then x ∈ p.params ∨ x ∈ p.defs ∨ Avail c rest x
+    if p.ccall then x ∈ p.params ∨ x ∈ p.defs ∨ (x ∉ p.blocks ∧ Avail c rest x)
     else x ∈ p.params ∨ tagsOf p.own x ≠ [] ∨ x ∈ p.defs ∨ x ∈ p.ids.undeclared ∨ x ∈ p.ids.declared
 
 /-- a frame's `_Identifiers` agree with the template-side description of the scope -/
 structure FrameOK (c : Cfg) (T : List Name) (f : Frame) : Prop where
   notcc : f.ccall = false
+  nob : f.blocks = []
   arg : ∀ x, x ∈ f.ids.argDecl → x ∈ f.params
   loc : ∀ x, x ∈ f.ids.locDecl → x ∈ f.params ∨ tagsOf f.own x ≠ []
   argR : ∀ x, x ∈ f.params → x ∈ f.ids.argDecl
@@ -52,7 +53,8 @@ structure FrameOK (c : Cfg) (T : List Name) (f : Frame) : Prop where
 
 inductive ChainOK (c : Cfg) (T : List Name) : List Frame → Prop where
   | nil : ChainOK c T []
-  | ccall {f : Frame} {rest : List Frame} : ChainOK c T rest → f.ccall = true → f.own = [] → ChainOK c T (f :: rest)
+  | ccall {f : Frame} {rest : List Frame} : ChainOK c T rest → f.ccall = true → f.own = [] →
+      (∀ x ∈ f.blocks, x ∉ c.moduleNames) → ChainOK c T (f :: rest)
   | frame {f : Frame} {rest : List Frame} : ChainOK c T rest → FrameOK c T f →
       (∀ x, x ∈ f.ids.declared → Avail c rest x ∨ x ∈ f.ids.locDecl ∨ x ∈ f.ids.argDecl ∨ x ∈ f.defs) →
       (∀ x, Avail c rest x → x ∈ f.ids.declared) → ChainOK c T (f :: rest)
@@ -65,11 +67,14 @@ theorem not_avail {c : Cfg} {T : List Name} : ∀ {chain : List Frame}, ChainOK 
   intro chain h
   induction h with
   | nil => intro d x hx; exact ⟨rfl, hx⟩
-  | @ccall f rest _ hcc hown ih =>
+  | @ccall f rest _ hcc hown hblk ih =>
     intro d x hx
     simp only [Avail, hcc, if_true, not_or] at hx
-    have := ih (d + 1) x hx.2.2
-    simp [Spec.scopeLookup, hx.1, hx.2.1, hown, tagsOf_nil, this]
+    by_cases hb : x ∈ f.blocks
+    · exact ⟨by simp [Spec.scopeLookup, hx.1, hx.2.1, hown, tagsOf_nil, hb], hblk x hb⟩
+    · have hr : ¬ Avail c rest x := fun ha => hx.2.2 ⟨hb, ha⟩
+      have := ih (d + 1) x hr
+      simp [Spec.scopeLookup, hx.1, hx.2.1, hown, tagsOf_nil, hb, this]
   | @frame f rest _ hf _ hback ih =>
     intro d x hx
     simp only [Avail, hf.notcc, Bool.false_eq_true, if_false, not_or] at hx
@@ -77,7 +82,7 @@ theorem not_avail {c : Cfg} {T : List Name} : ∀ {chain : List Frame}, ChainOK 
     have hrest : ¬ Avail c rest x := fun ha => h5 (hback x ha)
     have := ih (d + 1) x hrest
     have h2' : tagsOf f.own x = [] := by simpa using h2
-    simp [Spec.scopeLookup, h1, h2', h3, this]
+    simp [Spec.scopeLookup, h1, h2', h3, hf.nob, this]
 
 theorem toSVal_fetched {c : Cfg} {rt : RT} (h : RTOK c rt) (d : Nat) (x : Name) :
     (Res.cell d Cell.fetched).toSVal c rt x = Spec.fetch c.strict rt x := by
@@ -95,20 +100,20 @@ theorem resolve_avail {c : Cfg} {T : List Name} {rt : RT} (hrt : RTOK c rt) :
     intro d x hx
     have hx' : x ∈ c.moduleNames := hx
     simp [Impl.resolveFrom, Spec.resolveFrom, Spec.scopeLookup, Spec.tail, hx', Res.toSVal]
-  | @ccall f rest _ hcc hown ih =>
+  | @ccall f rest _ hcc hown _ ih =>
     intro d x hx
     simp only [Avail, hcc, if_true] at hx
     by_cases h1 : x ∈ f.params
     · simp [Impl.resolveFrom, Frame.lookup, Spec.resolveFrom, Spec.scopeLookup, h1, Res.toSVal]
     · by_cases h2 : x ∈ f.defs
       · simp [Impl.resolveFrom, Frame.lookup, Spec.resolveFrom, Spec.scopeLookup, h1, h2, hown, tagsOf_nil, hcc, Res.toSVal]
-      · have hr : Avail c rest x := by
+      · have hr : x ∉ f.blocks ∧ Avail c rest x := by
           rcases hx with hx | hx | hx
           · exact absurd hx h1
           · exact absurd hx h2
           · exact hx
-        have := ih (d + 1) x hr
-        simpa [Impl.resolveFrom, Frame.lookup, Spec.resolveFrom, Spec.scopeLookup, h1, h2, hown, tagsOf_nil, hcc] using this
+        have := ih (d + 1) x hr.2
+        simpa [Impl.resolveFrom, Frame.lookup, Spec.resolveFrom, Spec.scopeLookup, h1, h2, hown, tagsOf_nil, hcc, hr.1] using this
   | @frame f rest hrest hf hfwd hback ih =>
     intro d x hx
     simp only [Avail, hf.notcc, Bool.false_eq_true, if_false] at hx
@@ -144,7 +149,7 @@ theorem resolve_avail {c : Cfg} {T : List Name} {rt : RT} (hrt : RTOK c rt) :
               have hhl : hasLoop c f.ids = true := by
                 simp only [hasLoop, he, Bool.true_and, decide_eq_true_eq]
                 exact hraw
-              simp [Impl.resolveFrom, Frame.lookup, Spec.resolveFrom, Spec.scopeLookup, Spec.tail, h1, h2, h3, hf.notcc, hnw,
+              simp [Impl.resolveFrom, Frame.lookup, Spec.resolveFrom, Spec.scopeLookup, Spec.tail, h1, h2, h3, hf.nob, hf.notcc, hnw,
                 hhl, he, hn.1, hn.2, Res.toSVal]
             · have hloop : c.enableLoop = true → x ≠ loopName := fun he hxl => hl ⟨he, hxl⟩
               have hw : x ∈ toWrite c f.ids none := mem_toWrite_none.mpr ⟨Or.inl h4, hnarg, hnloc, hloop⟩
@@ -154,14 +159,14 @@ theorem resolve_avail {c : Cfg} {T : List Name} {rt : RT} (hrt : RTOK c rt) :
                 · simp [hloop he]
               by_cases ht : x ∈ f.ids.topdefs
               · have hT : x ∈ T := (hf.tops x).mp ht
-                simp [Impl.resolveFrom, Frame.lookup, Spec.resolveFrom, Spec.scopeLookup, Spec.tail, h1, h2, h3, hf.notcc, hw,
+                simp [Impl.resolveFrom, Frame.lookup, Spec.resolveFrom, Spec.scopeLookup, Spec.tail, h1, h2, h3, hf.nob, hf.notcc, hw,
                   classify, hncl, ht, hT, hn.1, hn.2, hnl, Res.toSVal]
               · have hT : x ∉ T := fun h' => ht ((hf.tops x).mpr h')
                 by_cases hns : x ∈ c.nsNames
-                · simp [Impl.resolveFrom, Frame.lookup, Spec.resolveFrom, Spec.scopeLookup, Spec.tail, h1, h2, h3, hf.notcc, hw,
+                · simp [Impl.resolveFrom, Frame.lookup, Spec.resolveFrom, Spec.scopeLookup, Spec.tail, h1, h2, h3, hf.nob, hf.notcc, hw,
                     classify, hncl, ht, hT, hns, hn.1, hn.2, hnl, Res.toSVal]
                 · have := toSVal_fetched hrt d x
-                  simp [Impl.resolveFrom, Frame.lookup, Spec.resolveFrom, Spec.scopeLookup, Spec.tail, h1, h2, h3, hf.notcc, hw,
+                  simp [Impl.resolveFrom, Frame.lookup, Spec.resolveFrom, Spec.scopeLookup, Spec.tail, h1, h2, h3, hf.nob, hf.notcc, hw,
                     classify, hncl, ht, hT, hns, hn.1, hn.2, hnl, this]
           · -- inherited from the enclosing functions
             have hd : x ∈ f.ids.declared := by
@@ -192,6 +197,6 @@ theorem resolve_avail {c : Cfg} {T : List Name} {rt : RT} (hrt : RTOK c rt) :
               cases hh : hasLoop c f.ids
               · simp
               · simp; exact fun hxl => hnl ⟨hh, hxl⟩
-            simpa [Impl.resolveFrom, Frame.lookup, Spec.resolveFrom, Spec.scopeLookup, h1, h2, h3, hf.notcc, hnw, hl'] using this
+            simpa [Impl.resolveFrom, Frame.lookup, Spec.resolveFrom, Spec.scopeLookup, h1, h2, h3, hf.nob, hf.notcc, hnw, hl'] using this
 
 end MakoModel.Names
